@@ -32,6 +32,7 @@ import (
 	"github.com/AliceO2Group/Control/core/integration"
 	pb "github.com/AliceO2Group/Control/core/protos"
 	mesos "github.com/mesos/mesos-go/api/v1/lib"
+	"github.com/spf13/viper"
 	"google.golang.org/grpc/status"
 
 	"verif/harness/internal/gen"
@@ -52,6 +53,7 @@ const (
 
 type Role struct {
 	Kind   int  `json:"k"`
+	Ch     int  `json:"ch,omitempty"`    // plain role: shared task class "sh<Ch>" (0: a class of its own)
 	St     int  `json:"st,omitempty"`    // KLeave: environment state code (2 CONFIGURED, 3 RUNNING, 4 ERROR)
 	After  bool `json:"after,omitempty"` // after_DESTROY instead of DESTROY
 	W      int  `json:"w,omitempty"`     // hook weight
@@ -62,9 +64,11 @@ type Role struct {
 }
 
 type Spec struct {
-	Hosts []int  `json:"hosts"`
-	Fail  int    `json:"fail,omitempty"` // 0 none 1 missing template 2 template error 3 host without detector 4 undeployable role
-	Roles []Role `json:"roles"`
+	Hosts  []int  `json:"hosts"`
+	Reuse  bool   `json:"reuse,omitempty"`  // created with reuseUnlockedTasks=true
+	Refuse []int  `json:"refuse,omitempty"` // numbers of the roles for whose task the master refuses KILL calls
+	Fail   int    `json:"fail,omitempty"`   // 0 none 1 missing template 2 template error 3 host without detector 4 undeployable role
+	Roles  []Role `json:"roles"`
 }
 
 type Op struct {
@@ -210,7 +214,7 @@ func specTerm(s *Spec) string {
 	for i, r := range s.Roles {
 		rs[i] = roleTerm(r)
 	}
-	return fmt.Sprintf("(mkSpec %s %d %s)", nl(detsOf(s.Hosts)), s.Fail, gen.List(rs))
+	return fmt.Sprintf("(mkSpec %s %d %s %s)", nl(detsOf(s.Hosts)), s.Fail, gen.List(rs), nl(s.Refuse))
 }
 
 func opTerm(o Op) string {
@@ -233,6 +237,8 @@ func opTerm(o Op) string {
 		return fmt.Sprintf("(ODies %s)", tidTerm(o.T))
 	case "xfail":
 		return fmt.Sprintf("(OFail %s)", tl(o.Ids))
+	case "refuse":
+		return fmt.Sprintf("(ORefuse %s)", tl(o.Ids))
 	case "recon":
 		return "ORecon"
 	}
@@ -250,7 +256,7 @@ func obsTerm(o Obs) string {
 		if t.Owner >= 0 {
 			ow = fmt.Sprintf("(Some %d)", t.Owner)
 		}
-		ts[i] = fmt.Sprintf("(mkTask %s %s %s %d %s)", tidTerm(t.Id), ow, gen.Bool(t.Active), t.State, gen.Bool(t.Idok))
+		ts[i] = fmt.Sprintf("(mkTask %s %s %s %d %s 0)", tidTerm(t.Id), ow, gen.Bool(t.Active), t.State, gen.Bool(t.Idok))
 	}
 	return fmt.Sprintf("(mkObs %d %s %s %s %s %s %s %s %d %d %s %s)", o.Rc, gen.List(es), gen.List(ts), nl(o.ADets),
 		tl(o.Kills), tl(o.Cmds), tl(o.Calls), tl(o.Trigs), o.Early, o.Pend, tl(o.Launch), tl(o.Leak))
@@ -311,6 +317,13 @@ command:
   value: "true"
 `
 
+func roleClass(e, i int, r Role) string {
+	if r.Kind == KPlain && r.Ch > 0 {
+		return fmt.Sprintf("sh%d", r.Ch)
+	}
+	return className(e, i, r.Kind)
+}
+
 func className(e, i int, kind int) string {
 	if kind == KHookTask {
 		return fmt.Sprintf("e%dk%d", e, i)
@@ -336,7 +349,7 @@ func workflowYAML(name string, e int, s *Spec, gated bool) string {
 		switch r.Kind {
 		case KPlain, KHookTask:
 			fmt.Fprintf(&b, "  - name: \"r%d\"\n    constraints:\n      - attribute: machine_id\n        value: \"%s\"\n    task:\n      load: %s\n      critical: %v\n",
-				i, hostName(r.Host), className(e, i, r.Kind), r.Crit)
+				i, hostName(r.Host), roleClass(e, i, r), r.Crit)
 			if r.Kind == KHookTask {
 				trig := "DESTROY"
 				if r.After {
@@ -435,23 +448,26 @@ type child struct {
 	ctx  context.Context
 	hist History
 
-	mu       sync.Mutex
-	specs    map[int]*Spec  // env index -> spec
-	envIds   map[int]string // env index -> environment id
-	envIdx   map[string]int // environment id -> env index
-	envPtr   map[int]*environment.Environment
-	byTid    map[string]*launched
-	failCmd  map[string]bool // class + "/" + event -> refuse (transient: one request)
-	cfgErr   map[string]bool // class -> refuses CONFIGURE while its environment is being created
-	early    int
-	seenCall int
-	seenEv   int
-	pending  map[int]chan createRes // gated creations in flight
-	active   map[int]bool           // task key -> the core processed its TASK_RUNNING (status ACTIVE seen)
-	entered  map[int]bool           // task key -> seen in the roster
-	markers  int
-	attempts map[int]int // role key -> launches seen so far
-	killed   map[string]bool
+	mu        sync.Mutex
+	specs     map[int]*Spec  // env index -> spec
+	envIds    map[int]string // env index -> environment id
+	envIdx    map[string]int // environment id -> env index
+	envPtr    map[int]*environment.Environment
+	byTid     map[string]*launched
+	failCmd   map[string]bool // class + "/" + event -> refuse (transient: one request)
+	cfgErr    map[string]bool // class -> refuses CONFIGURE while its environment is being created
+	early     int
+	seenCall  int
+	seenEv    int
+	pending   map[int]chan createRes // gated creations in flight
+	active    map[int]bool           // task key -> the core processed its TASK_RUNNING (status ACTIVE seen)
+	entered   map[int]bool           // task key -> seen in the roster
+	markers   int
+	attempts  map[int]int // role key -> launches seen so far
+	killed    map[string]bool
+	curCreate int          // environment index of the creation that is deploying
+	refuse    map[int]bool // task key -> the master refuses KILL calls for it
+	exfail    map[int]bool // task key -> its executor / agent failed
 }
 
 const markerPrefix = "verif-marker-"
@@ -563,6 +579,21 @@ func (c *child) onLaunch(ti mesos.TaskInfo) string {
 		cls = cls[:i]
 	}
 	e, i, ok := parseClass(cls)
+	if !ok && strings.HasPrefix(cls, "sh") {
+		// a shared class: the role is the one of the creation in progress that loads this class
+		var ch int
+		fmt.Sscanf(cls, "sh%d", &ch)
+		c.mu.Lock()
+		e = c.curCreate
+		if sp := c.specs[e]; sp != nil {
+			for j, ro := range sp.Roles {
+				if ro.Kind == KPlain && ro.Ch == ch {
+					i, ok = j, true
+				}
+			}
+		}
+		c.mu.Unlock()
+	}
 	if !ok {
 		return "running"
 	}
@@ -860,6 +891,9 @@ func (c *child) observe(rc int, pendAfter int) Obs {
 func (c *child) prepare(e int, s *Spec, gated bool) string {
 	name := fmt.Sprintf("w%d", e)
 	c.mu.Lock()
+	for _, i := range s.Refuse {
+		c.refuse[tidOf(e, i)] = true
+	}
 	c.specs[e] = s
 	c.mu.Unlock()
 	if s.Fail == 1 {
@@ -869,7 +903,7 @@ func (c *child) prepare(e int, s *Spec, gated bool) string {
 	for i, r := range s.Roles {
 		switch r.Kind {
 		case KPlain:
-			n := className(e, i, r.Kind)
+			n := roleClass(e, i, r)
 			os.WriteFile(filepath.Join(c.s.RepoDir, "tasks", n+".yaml"), []byte(fmt.Sprintf(directClass, n)), 0o644)
 		case KHookTask:
 			n := className(e, i, r.Kind)
@@ -899,6 +933,11 @@ func (c *child) setCfgErr(e int, s *Spec, on bool) {
 }
 
 func (c *child) doCreate(e int, wf string) createRes {
+	c.mu.Lock()
+	c.curCreate = e
+	reuse := c.specs[e] != nil && c.specs[e].Reuse
+	c.mu.Unlock()
+	viper.Set("reuseUnlockedTasks", reuse)
 	r, err := c.s.Rpc.NewEnvironment(c.ctx, &pb.NewEnvironmentRequest{WorkflowTemplate: wf, Public: true})
 	id := ""
 	if err == nil && r != nil && r.Environment != nil {
@@ -915,6 +954,26 @@ func (c *child) doCreate(e int, wf string) createRes {
 		c.envIds[e] = id
 		c.envIdx[id] = e
 		c.mu.Unlock()
+		// a task this creation claimed (it was launched for another environment) is from now on the task of
+		// the role it was claimed for
+		for _, t := range c.s.Taskman.VerifRoster() {
+			if t.EnvId != id {
+				continue
+			}
+			c.mu.Lock()
+			if l := c.byTid[t.TaskId]; l != nil && l.e != e {
+				var j int
+				seg := t.RolePath
+				if k := strings.LastIndex(seg, "."); k >= 0 {
+					seg = seg[k+1:]
+				}
+				if n, _ := fmt.Sscanf(seg, "r%d", &j); n == 1 {
+					l.e, l.i, l.key = e, j, tidOf(e, j)
+					c.active[l.key], c.entered[l.key] = true, true
+				}
+			}
+			c.mu.Unlock()
+		}
 	}
 	return createRes{id, err}
 }
@@ -1134,6 +1193,13 @@ func (c *child) runOp(o Op) Obs {
 		c.mu.Unlock()
 		_, err := c.s.Rpc.CleanupTasks(c.ctx, &pb.CleanupTasksRequest{TaskIds: ids})
 		return c.observe(rcOf(err), 0)
+	case "refuse":
+		c.mu.Lock()
+		for _, k := range o.Ids {
+			c.refuse[k] = true
+		}
+		c.mu.Unlock()
+		return c.observe(0, 0)
 	case "recon":
 		// status updates that originate from the master: TASK_RUNNING, reason reconciliation, agent
 		// id but no executor id, for every running roster task (what a real master answers to the
@@ -1219,6 +1285,11 @@ func (c *child) runOp(o Op) Obs {
 			return done == len(affected)
 		})
 		sort.Ints(keys)
+		c.mu.Lock()
+		for _, k := range keys {
+			c.exfail[k] = true
+		}
+		c.mu.Unlock()
 		ob := c.observe(0, 0)
 		ob.xf = keys
 		return ob
@@ -1285,15 +1356,28 @@ func runChild(workDir string) {
 	}
 	c := &child{s: s, rec: rec, g: g, ctx: context.Background(), hist: h,
 		specs: map[int]*Spec{}, envIds: map[int]string{}, envIdx: map[string]int{}, envPtr: map[int]*environment.Environment{},
-		byTid: map[string]*launched{}, failCmd: map[string]bool{}, cfgErr: map[string]bool{}, pending: map[int]chan createRes{}, active: map[int]bool{}, entered: map[int]bool{}, attempts: map[int]int{}, killed: map[string]bool{}}
+		byTid: map[string]*launched{}, failCmd: map[string]bool{}, cfgErr: map[string]bool{}, pending: map[int]chan createRes{}, active: map[int]bool{}, entered: map[int]bool{}, attempts: map[int]int{}, killed: map[string]bool{}, refuse: map[int]bool{}, exfail: map[int]bool{}}
 	s.Beh.Launch = c.onLaunch
 	s.Beh.Command = func(taskId, cls, event string) simcore.CmdOutcome {
+		k := c.keyOfTid(taskId)
 		c.mu.Lock()
 		defer c.mu.Unlock()
+		c.active[k] = true // a command is only sent to a task that is ACTIVE for the core
 		if c.failCmd[cls+"/"+event] || (event == "CONFIGURE" && c.cfgErr[cls]) {
 			return simcore.CmdErrSource
 		}
 		return simcore.CmdAck
+	}
+	s.Beh.KillError = func(taskId string) error {
+		// refused only while the task is ACTIVE for the core (the model's oracle applies to ACTIVE tasks)
+		k := c.keyOfTid(taskId)
+		lt, live := c.s.LiveTasks()[taskId]
+		c.mu.Lock()
+		defer c.mu.Unlock()
+		if c.refuse[k] && c.active[k] && !c.exfail[k] && live && !lt.Terminal {
+			return fmt.Errorf("verif: the master refuses to kill %s", taskId)
+		}
+		return nil
 	}
 	s.Beh.Hook = func(taskId, cls string) int {
 		if e, _, ok := parseClass(cls); ok {
